@@ -66,3 +66,12 @@ class transformed:
             )
         ),
     }
+
+
+@opaque_factory("Paint")
+def _paint_token(ident):
+    # native stand-in for "some paint subtree": distinct identities give distinct objects
+    from nanoemoji.paint import PaintGlyph, PaintSolid
+    from nanoemoji.colors import Color
+
+    return PaintGlyph(glyph=f"opaque{ident}", paint=PaintSolid(Color(0, 0, 0, 1.0)))
